@@ -85,10 +85,6 @@ Definition meta_guess_b (s : wstate) (c : call) : bool :=
   | _ => true
   end.
 
-(* the call-level domain, with the metadata value restricted to dicts *)
-Definition call_good' (c : call) : Prop :=
-  call_good c /\ match c with WriteMeta md _ _ => exists kv, md = WDict (JObj kv) | _ => True end.
-
 (* 3. one step of the simulation *)
 Definition step_ok (orc : oracle) (chunk : nat) (s : wstate) (st : rstate) (valid : list bytes)
            (encs : list (option pv)) (prev : nat) (c : call) (s' : wstate) : Prop :=
